@@ -1,10 +1,10 @@
 (* Executable model of kwajd.c on the bytes of a KWAJ file: kwajd_read_headers (all optional header fields, file name and
    extension) and kwajd_extract for the methods NONE, XOR, SZDD (the LZSS decoder of Model/Lzss.v) and MSZIP (Model/Mszip.v).
-   Method LZH is not modelled (UNMODELLED). *)
+   Method LZH: Model/Lzh.v. *)
 From Coq Require Import List NArith ZArith Bool.
 Import ListNotations.
 From MSP Require Import Gen.Consts Gen.Tables Model.Chm.
-From MSP Require Model.Lzss Model.Mszip Model.Cab.
+From MSP Require Model.Lzss Model.Mszip Model.Cab Model.Lzh.
 Local Open Scope N_scope.
 
 Definition UNMODELLED : N := 98.
@@ -75,7 +75,7 @@ Definition kwaj_extract (file : list N) (h : khdr) : N * list N :=
   if (k_comp h =? MSKWAJ_COMP_NONE) then (MSPACK_ERR_OK, data)
   else if (k_comp h =? MSKWAJ_COMP_XOR) then (MSPACK_ERR_OK, map (fun c => N.lxor c 255) data)
   else if (k_comp h =? MSKWAJ_COMP_SZDD) then (MSPACK_ERR_OK, Lzss.lzss_spec LZSS_MODE_QBASIC data)
-  else if (k_comp h =? MSKWAJ_COMP_LZH) then (UNMODELLED, [])
+  else if (k_comp h =? MSKWAJ_COMP_LZH) then Lzh.lzh_decompress data
   else if (k_comp h =? MSKWAJ_COMP_MSZIP) then Mszip.mszip_kwaj data
   else (MSPACK_ERR_DATAFORMAT, []).
 
